@@ -207,19 +207,23 @@ def _loss(out, target, kind):
     return ((out - target) ** 2).mean()
 
 
-def reference_gradients(P0, A0, X, Yenc, Aenc, ytype, atype, pass_y):
+def reference_gradients(P0, A0, X, Yenc, Aenc, ytype, atype, pass_y, single=False):
     """dLP/dW, dLA/dW (through the predictor) and dLA/dU by autograd in float64 on deep copies.
 
-    Inputs are first rounded to float32 (the documented tensor type) and then promoted."""
+    Inputs are first rounded to float32 (the documented tensor type) and then promoted.  With
+    ``single=True`` the same first-principles computation is carried out in float32; the difference to the
+    float64 result measures how well float32 can resolve these gradients at all (used for tolerances only).
+    """
     import torch
 
-    P = copy.deepcopy(P0).double()
-    A = copy.deepcopy(A0).double()
+    dt = torch.float32 if single else torch.float64
+    P = copy.deepcopy(P0).to(dt)
+    A = copy.deepcopy(A0).to(dt)
     P.train()
     A.train()
-    Xt = torch.from_numpy(np.asarray(X, dtype=np.float32)).double()
-    Yt = torch.from_numpy(np.asarray(Yenc, dtype=np.float32)).double()
-    At = torch.from_numpy(np.asarray(Aenc, dtype=np.float32)).double()
+    Xt = torch.from_numpy(np.asarray(X, dtype=np.float32)).to(dt)
+    Yt = torch.from_numpy(np.asarray(Yenc, dtype=np.float32)).to(dt)
+    At = torch.from_numpy(np.asarray(Aenc, dtype=np.float32)).to(dt)
     out = P(Xt)
     LP = _loss(out, Yt, ytype)
     Wp = list(P.parameters())
@@ -239,7 +243,7 @@ def reference_gradients(P0, A0, X, Yenc, Aenc, ytype, atype, pass_y):
     gAU = torch.autograd.grad(LA, Up, allow_unused=True)
 
     def fill(gs, ps):
-        return [torch.zeros_like(p) if g is None else g.detach() for g, p in zip(gs, ps)]
+        return [(torch.zeros_like(p) if g is None else g.detach()).double() for g, p in zip(gs, ps)]
 
     return fill(gP, Wp), fill(gAW, Wp), fill(gAU, Up), float(LP), float(LA), margin
 
